@@ -52,12 +52,12 @@ rw_contract("GenericTypeRewriter.rewrite", "typ", rank=2, assumes=NO_CLASH)
 contract(P + "GenericTypeRewriter._rewrite_container", props=["C07", "C04", "C01"], theories=TH, scc="rewrite", decreases=["depth(container)", "0"],
          params={"self": "Rewriter", "cls": "Ty", "container": "Ty"}, result="Ty",
          requires={"wf": WF.format(x="container"),
-                   "kind": "kind(container) is K_List or kind(container) is K_Set or kind(container) is K_Dict or kind(container) is K_Tuple"
+                   "kind": "kind(container) is K_List or kind(container) is K_Set or kind(container) is K_Dict or kind(container) is K_DefaultDict or kind(container) is K_Tuple"
                            " or kind(container) is K_TupleVar or kind(container) is K_Generator or kind(container) is K_Union",
                    "ctor": "cls is ctor_of(container)"},
          ensures={"post:widen": W.format(x="container"), "post:wf": "wf_rw(result)", "post:ellipsis": "result is not ELLIPSIS_"})
-for name, kinds in (("Dict", ["Dict"]), ("List", ["List"]), ("Set", ["Set"]), ("Tuple", ["Tuple", "TupleVar"]), ("Generator", ["Generator"]), ("Union", ["Union"])):
-    rw_contract("GenericTypeRewriter.rewrite_" + name, {"Dict": "dct", "List": "lst", "Set": "st", "Tuple": "tup", "Generator": "generator", "Union": "union"}[name], kinds=kinds)
+for name, kinds in (("Dict", ["Dict"]), ("DefaultDict", ["DefaultDict"]), ("List", ["List"]), ("Set", ["Set"]), ("Tuple", ["Tuple", "TupleVar"]), ("Generator", ["Generator"]), ("Union", ["Union"])):
+    rw_contract("GenericTypeRewriter.rewrite_" + name, {"Dict": "dct", "DefaultDict": "dct", "List": "lst", "Set": "st", "Tuple": "tup", "Generator": "generator", "Union": "union"}[name], kinds=kinds)
 rw_contract("GenericTypeRewriter.rewrite_anonymous_TypedDict", "typed_dict", kinds=["TD"], rank=0,
             hints={"req": "forall(td_req(typed_dict), lambda k: has(td_req(result), k)"
                           " and forall_val(lambda v: implies(mem(v, lookup(td_req(typed_dict), k)), mem(v, lookup(td_req(result), k)))))"})
